@@ -212,6 +212,7 @@ def reuse_history(rep, states, tier, rng):
     groups = {}
     for st in states:
         groups.setdefault((st['dim'], json.dumps([list(x) for x in st['data']]), json.dumps(list(st['labels']))), []).append(st)
+    partner = {}     # per dimension: an operation on OTHER data that stays alive and is driven in between (objects must not share cached entries)
     for (D, _, _), grp in groups.items():
         for lam, numeric in [(0.0, False), (0.01, False), (0.0, True)]:
             if numeric and tier == 'quick' and D > 1:
@@ -240,6 +241,12 @@ def reuse_history(rep, states, tier, rng):
                 G = np.array([[float(mass[(p, q)] * scale) for q in order] for p in order])
                 try:
                     with impl.quiet(), impl.watchdog(120):
+                        if D in partner and partner[D][0] is not op:
+                            pop, pdata, pgrid = partner[D]
+                            pgrid.set_grid(coords, levels)
+                            pop.build_R_matrix_dimension_wise(coords, levels)
+                            pop.calculate_B_dimension_wise(pdata, coords, levels)
+                            pop.old_B, pop.old_grid_coord = dict(pop.new_B), dict(pop.new_grid_coord)
                         grid.set_grid(coords, levels)
                         R = np.asarray(op.build_R_matrix_dimension_wise(coords, levels), dtype=float)
                         b = np.asarray(op.calculate_B_dimension_wise(data, coords, levels), dtype=float)
@@ -264,6 +271,8 @@ def reuse_history(rep, states, tier, rng):
                     rep.violation('C16_RhsIsSampleMean', {'dim': D, 'reuse': True}, {'grid_history': [point_order(s)[1] for s in seq[:k + 1]]},
                                   what='with reuse_old_values the right-hand side of grid %s (step %d) differs from the sample means' % (grids, k))
                     break
+            if not numeric:
+                partner[D] = (op, data, grid)
 
 
 def run(tier, seed):
